@@ -126,6 +126,22 @@ func registerGhostBuiltins() {
 		v := e.eval(n.Args[0])
 		return boolVal(e.x.tensorWF(e.st, tensorRef(v)))
 	}
+	// views: what a tensor obtained by Slice was asked to select (see viewFacts)
+	specBuiltins["vparent"] = func(e *SpecEnv, n ECall) Val {
+		e.x.uninterp("vparent", []string{SInt}, SInt)
+		return specInt(sx("vparent", tensorRef(e.eval(n.Args[0]))))
+	}
+	specBuiltins["vwhole"] = func(e *SpecEnv, n ECall) Val {
+		e.x.uninterp("vwhole", []string{SInt, SInt}, SBool)
+		return boolVal(sx("vwhole", tensorRef(e.eval(n.Args[0])), e.eval(n.Args[1]).C[0]))
+	}
+	for _, f := range []string{"vstart", "vend", "vstep"} {
+		f := f
+		specBuiltins[f] = func(e *SpecEnv, n ECall) Val {
+			e.x.uninterp(f, []string{SInt, SInt}, SInt)
+			return specInt(sx(f, tensorRef(e.eval(n.Args[0])), e.eval(n.Args[1]).C[0]))
+		}
+	}
 	specBuiltins["isdense"] = func(e *SpecEnv, n ECall) Val {
 		v := e.eval(n.Args[0])
 		return boolVal(eq(v.tag(), e.x.denseTag()))
